@@ -26,6 +26,12 @@ func genJoinCase(r *wire.Rng, n int, stream string, w *wire.Out) {
 		head = append(head, "ju")
 		unchecked = true
 	}
+	// js: one joined collection is a krt.NewStatic singleton holding key n1/s or nothing
+	js, si := false, 0
+	if (stream == "join" || stream == "joinr") && !unchecked && r.Chance(15, 100) {
+		head = append(head, "js")
+		js, si = true, n%ncols
+	}
 	// unchecked joins need disjoint keys: every key belongs to one collection
 	owner := func(k string) int {
 		h := 0
@@ -43,7 +49,11 @@ func genJoinCase(r *wire.Rng, n int, stream string, w *wire.Out) {
 	var subs []string
 	nsub := 0
 	mkObj := func() Obj {
-		return Obj{NS: wire.Pick(r, nss), Name: wire.Pick(r, pnames), Labels: genLabels(r, 30), Val: wire.Pick(r, vals)}
+		o := Obj{NS: wire.Pick(r, nss), Name: wire.Pick(r, pnames), Labels: genLabels(r, 30), Val: wire.Pick(r, vals)}
+		if js && r.Chance(25, 100) { // the singleton's key, also in the other collections
+			o.NS, o.Name = "n1", "s"
+		}
+		return o
 	}
 	// safe reports whether sub-collection i may change key k now without making it unsafe
 	safe := func(k string, i int) bool {
@@ -57,6 +67,9 @@ func genJoinCase(r *wire.Rng, n int, stream string, w *wire.Out) {
 		if unchecked {
 			i = owner(o.ResourceName())
 		}
+		if js && i == si {
+			o.NS, o.Name = "n1", "s"
+		}
 		jr.touch(o.ResourceName(), i)
 		jr.state[i][o.ResourceName()] = o
 		emit("c.set", strconv.Itoa(i), o.Token())
@@ -64,6 +77,9 @@ func genJoinCase(r *wire.Rng, n int, stream string, w *wire.Out) {
 	del := func(i int, k string) {
 		if unchecked {
 			i = owner(k)
+		}
+		if js && i == si {
+			k = "n1/s"
 		}
 		if _, f := jr.state[i][k]; f {
 			jr.touch(k, i)
@@ -81,11 +97,18 @@ func genJoinCase(r *wire.Rng, n int, stream string, w *wire.Out) {
 				}
 			}
 		}
+		if js {
+			emit("get", "n1/s")
+		}
 		for _, ns := range nss {
-			emit("lookup", ns)
+			if !js {
+				emit("lookup", ns)
+			}
 		}
 		for _, v := range vals {
-			emit("vlookup", v)
+			if !js {
+				emit("vlookup", v)
+			}
 		}
 		for _, s := range subs {
 			emit("stream", s)
@@ -93,7 +116,9 @@ func genJoinCase(r *wire.Rng, n int, stream string, w *wire.Out) {
 		if stream == "joinr" || stream == "joinnr" {
 			emit("ulist")
 			for _, ns := range nss {
-				emit("ulookup", ns)
+				if !js {
+					emit("ulookup", ns)
+				}
 			}
 			for _, s := range subs {
 				emit("ustream", s)
@@ -148,6 +173,9 @@ func genJoinCase(r *wire.Rng, n int, stream string, w *wire.Out) {
 		case x < 45:
 			o := mkObj()
 			c := r.Intn(ncols)
+			if js && c == si {
+				o.NS, o.Name = "n1", "s"
+			}
 			if !safe(o.ResourceName(), c) {
 				if r.Chance(50, 100) {
 					jr.barrier()
@@ -173,6 +201,9 @@ func genJoinCase(r *wire.Rng, n int, stream string, w *wire.Out) {
 		case x < 70:
 			c := r.Intn(ncols)
 			k := wire.Pick(r, nss) + "/" + wire.Pick(r, pnames)
+			if js && (c == si || r.Chance(20, 100)) {
+				k = "n1/s"
+			}
 			if !safe(k, c) {
 				if r.Chance(50, 100) {
 					jr.barrier()
